@@ -353,6 +353,34 @@ def lookupWalk (b ob : Baggage) : List Bytes → List String → Option (Bool ×
     | _, _ => none
   | _, _ => none
 
+/-! ### the grammar as an oracle (Spec predicates only) -/
+
+/-- what the header grammar says about `h`: `none` = not a baggage header, `some b` = denotes `b` -/
+def headerGrammar (h : Bytes) : Option Baggage :=
+  if h.isEmpty then some []
+  else if h.length > maxBytesPerBaggageString then none
+  else
+    let pieces := splitOn cComma h
+    if pieces.all memberAccepts then
+      let b := refNew (pieces.map memberDecode)
+      if b.length > maxMembers then none else some b
+    else none
+
+/-- observed result vs grammar: ok ⇔ accepted, and the same map -/
+def grammarOK (h : Bytes) (ob : Except String Baggage) : Bool :=
+  match ob, headerGrammar h with
+  | .ok b, some g => sameMap b g
+  | .error e, none => e != "panic"
+  | _, _ => false
+
+/-- property constructor spec: outer none = unparseable, inner none = constructor error -/
+def propCtorOfSpec (s : String) : Option (Option Property × String × Bytes × Bytes) :=
+  match splitC s '.' with
+  | ["k", k] => do let k ← parseHex k; pure (newKeyProperty k, "k", k, [])
+  | ["r", k, v] => do let k ← parseHex k; let v ← parseHex v; pure (newKeyValuePropertyRaw k v, "r", k, v)
+  | ["e", k, v] => do let k ← parseHex k; let v ← parseHex v; pure (newKeyValueProperty k v, "e", k, v)
+  | _ => none
+
 /-! ### one line -/
 
 def stepLine (_ : Unit) (toks : List String) : Unit × Option Verdict :=
@@ -407,10 +435,24 @@ def stepLine (_ : Unit) (toks : List String) : Unit × Option Verdict :=
       let br := match m with
         | none => "rejected"
         | some m => if m.string.isEmpty then "dropped-key" else if m.props.isEmpty then "plain" else "props"
-      -- oracle: a constructed member holds valid UTF-8 only
-      let spec := match m with
-        | none => o == "err"
-        | some m => ctorMemberOK m
+      -- oracle, on the observed member: valid UTF-8 only; Key()/Value() are the constructor's arguments (decoded
+      -- for the encoded constructor); String() is empty iff the key is no token, otherwise it is a list-member of
+      -- the grammar and (all property keys tokens, <= 4096 bytes) denotes exactly the member
+      let args : Option (String × Bytes × Bytes) := match splitC ms '/' with
+        | [c, k, v, _] => do let k ← parseHex k; let v ← parseHex v; pure (c, k, v)
+        | _ => none
+      let spec := match splitC o ':', args with
+        | ["err"], _ => true
+        | ["ok", mo, hs], some (c, k, v) =>
+          match memberOfObs mo, parseHex hs with
+          | some om, some str =>
+            ctorMemberOK om && om.key == k &&
+            (if c == "enc" then pctOK v && om.value == pctDecode v else om.value == v) &&
+            (str.isEmpty == !isToken om.key) &&
+            (str.isEmpty || str.length > maxBytesPerMembers || !om.props.all (fun p => isToken p.key) ||
+              (memberAccepts str && memberDecode str == om))
+          | _, _ => false
+        | _, _ => false
       verdict (model == o) (okFail spec) m.isSome br model
     | none => none
   | ["new", _, ms], [o] =>
@@ -459,9 +501,9 @@ def stepLine (_ : Unit) (toks : List String) : Unit × Option Verdict :=
         | _, _ => false
       -- oracle on the observed result: sound, and stable unless it no longer fits the limits (F30)
       let spec := match ob with
-        | .error e => if e == "panic" then "FAIL" else "ok"   -- "parsing arbitrary bytes never panics"
+        | .error e => if e == "panic" || !grammarOK h ob then "FAIL" else "ok"   -- "parsing arbitrary bytes never panics"; rejected ⇔ not in the grammar
         | .ok b =>
-          if !parsedOK h b then "FAIL"
+          if !parsedOK h b || !grammarOK h ob then "FAIL"
           else match ob2 with
             | none => "FAIL"
             | some r2 =>
@@ -582,6 +624,36 @@ def stepLine (_ : Unit) (toks : List String) : Unit × Option Verdict :=
           (",".intercalate st.tags.eraseDups) (" ".intercalate st.model.reverse)
       | none => none
     | _, _ => none
+  | ["prop", _, ps], [st, k, hv, v, str, re] =>
+    match propCtorOfSpec ps, parseHex k, parseHex v, parseHex str with
+    | some (mp, kind, ak, av), some ok, some ov, some ostr =>
+      let p := mp.getD zeroProperty
+      let mre := if p.string.isEmpty then "-" else match parsePropertyInternal p.string with
+        | some q => "ok:" ++ renderProp q
+        | none => "err"
+      let model := s!"{if mp.isSome then "ok" else "err"} {hexOf p.getKey} {b2s p.getValue.2} {hexOf p.getValue.1} {hexOf p.string} {mre}"
+      -- oracle, on the observed values only: accessor laws, String() in the grammar, String/parse inverse
+      let op : Property := ⟨ok, ov, hv == "1"⟩
+      let laws := if st == "err" then ok.isEmpty && ov.isEmpty && hv == "0" && ostr.isEmpty
+        else st == "ok" && ok == ak && (match kind with
+          | "k" => hv == "0" && ov.isEmpty
+          | "r" => hv == "1" && ov == av
+          | _ => hv == "1" && pctOK av && ov == pctDecode av)
+      let inv := if ostr.isEmpty then (st == "err" || !isToken ok) && re == "-"
+        else isToken ok && propertyAccepts ostr && propertyDecode ostr == op && re == "ok:" ++ renderProp op
+      verdict (model == s!"{st} {k} {hv} {v} {str} {re}") (okFail (laws && inv)) mp.isSome
+        (kind ++ (if mp.isNone then "-err" else if p.string.isEmpty then "-dropped" else if p.hasValue && p.value.isEmpty then "-emptyvalue" else "")) model
+    | _, _, _, _ => none
+  | ["pparse", _, s], [o] =>
+    match parseHex s with
+    | some s =>
+      let m := parsePropertyInternal s
+      let model := match m with | some q => "ok:" ++ renderProp q | none => "err"
+      -- oracle: accepted ⇔ in the property grammar, value = what the grammar denotes
+      let g := if propertyAccepts s then "ok:" ++ renderProp (propertyDecode s) else "err"
+      verdict (model == o) (okFail (o == g)) m.isSome
+        (match m with | none => "reject" | some q => if q.hasValue then (if s.any isOWSb then "kv-ows" else "kv") else (if s.any isOWSb then "key-ows" else "key")) model
+    | none => none
   | ["conc", _, ms], [bit, ob] =>
     match membersOfSpec ms with
     | some ms =>
